@@ -1100,7 +1100,7 @@ def _edges(repo, col, R="R-C11-edges"):
             from sa.terms import canon as _canon
             for v_, path_ in _alts(_canon(_fuse(idx.inline(repo, fi, s.value)))):
                 o_ = _S(s, v_, path_)
-                st[("n" if s.key.name == "_nodes_in_view" else "e", tuple(g.pretty() for g in o_.guards))] = o_
+                st[("n" if s.key.name == "_nodes_in_view" else "e", tuple(g.key() for g in o_.guards))] = o_
     # node-selected view: the store of the edges that is computed from the two end columns (whatever the branch is called)
     def has_const(t_, c_):
         return T.find(t_, lambda y: y.op == "const" and y.name == c_) is not None
